@@ -246,4 +246,21 @@ def unifyF : Nat → Store → Ty → Ty → Res
     | some ln, some rn => unifyNorm (unifyF f) σ ln rn
     | _, _ => none
 
+
+/-- `Typer::solve` restricted to `Constraint::TypeEqual` constraints: one pass over the queue in
+order, `if self.unify(diagnostics, &l, &r) { changed = true; }` — a failing constraint pushes its
+diagnostic and the pass goes on with the next one (nothing is re-queued, so the `while changed` loop
+runs the pass once and then finds the queue empty).  Returns the diagnostics pushed, in order, and the
+final store; `none` = out of fuel.  (`Overloaded` and `StructFieldAccess` constraints, which consult
+the global environment and re-queue themselves, are not modelled.) -/
+def solveEqs (f : Nat) : Store → List (Ty × Ty) → Option (List Diag × Store)
+  | σ, [] => some ([], σ)
+  | σ, (l, r) :: cs =>
+    match unifyF f σ l r with
+    | none => none
+    | some (d, σ') =>
+      match solveEqs f σ' cs with
+      | none => none
+      | some (ds, σ'') => some ((match d with | none => ds | some d => d :: ds), σ'')
+
 end Goml.Unify
